@@ -1,6 +1,6 @@
 (* pkg/inflector/api.go + internal/inflector.go + the two Rule values registered by rules.go:init,
    over the tables extracted from the source on every run (Gen/InflectorTables.v).  Definitions only. *)
-Require Import Gengo.Base.Bytes Gengo.Model.Inflector Gengo.Gen.InflectorTables.
+Require Import Gengo.Base.Bytes Gengo.Model.Inflector Gengo.Model.InflectorRegexp Gengo.Gen.InflectorTables.
 
 (* Rule.Init: r.uninflected = slices.Concat(uninflected, uninflectedPlurals | uninflectedSingulars) *)
 Definition plural_unf_src : list bytes := uninflected_common ++ uninflected_plurals.
@@ -18,7 +18,17 @@ Definition is_some {A} (o : option A) : bool := match o with Some _ => true | No
    vm_compute on every run (Proofs/Inflector.v: tables_ok) *)
 Definition tables_wf : bool :=
   table_wf plural_irregular && table_wf singular_irregular
-  && is_some (parse_patterns plural_unf_src) && is_some (parse_patterns singular_unf_src).
+  && is_some (parse_patterns plural_unf_src) && is_some (parse_patterns singular_unf_src)
+  && is_some (compile_rules plural_rules) && is_some (compile_rules singular_rules).
+
+(* Rule.Init: r.compiledRules[i] = {item.Replacement, regexp.MustCompile(item.Pattern)}, in order *)
+Definition rules_of_src (src : list (bytes * bytes)) : list crule :=
+  match compile_rules src with Some l => l | None => [] end.
+
+Definition plural_crules : list crule := Eval vm_compute in rules_of_src plural_rules.
+Definition singular_crules : list crule := Eval vm_compute in rules_of_src singular_rules.
+
+Definition api_rules (plural : bool) : list crule := if plural then plural_crules else singular_crules.
 
 (* Inflector.Inflected(tye, s): both rule types are registered by init, so the map lookup hits.
    [plural = true] is inflector.Pluralize, [false] is inflector.Singularize.  [suffix] stands for
@@ -29,3 +39,14 @@ Definition api (fixed : bool) (plural : bool) (suffix : bytes -> bytes) (s : byt
 
 Definition api_table (plural : bool) : list (bytes * bytes) :=
   if plural then plural_irregular else singular_irregular.
+
+(* The complete model: nothing is left abstract.  The suffix-rule engine is [suffix_fn] over the
+   rules compiled from this run's rules.go (Proofs/InflectorRegexp.v: it never runs out of fuel). *)
+Definition api_full (fixed : bool) (plural : bool) (s : bytes) : res bytes :=
+  api fixed plural (suffix_fn (api_rules plural)) s.
+
+Definition api_unf (plural : bool) : list (list atom) := if plural then plural_unf else singular_unf.
+
+(* the string gets past the irregular table and the uninflected list, to the suffix rules *)
+Definition api_reaches_suffix (plural : bool) (s : bytes) : bool :=
+  reaches_suffix true (api_table plural) (api_unf plural) s.
